@@ -181,6 +181,16 @@ def judge_pipeline(rec, rf, txns, rows, tmp, rnd, ptxns=None):
     except O.ImplError as e:
         rec.violation('impl-raises:' + type(e.exc).__name__, str(e)[:300], case)
         return
+    if not ptrans:
+        try:
+            n, bad = O.pipeline_reported_is_classified(prules, ptxns, rows, tmp)
+            rec.count('reported_transaction_reclassified_checks', n)
+            for desc, loc, carried, again in bad[:1]:
+                if carried[0] != again[0]:
+                    rec.violation('triple-is-not-that-of-the-reported-transaction', f'statement without a location column: row {desc!r} is reported with location {loc!r} and '
+                                  f'{carried[0]}, but the first matching rule for exactly that transaction gives {again[0]}', case)
+        except O.ImplError as e:
+            rec.violation('impl-raises:' + type(e.exc).__name__, str(e)[:300], case)
     if len(got) != len(ptxns):
         rec.violation('pipeline-row-count', f'{len(got)} transactions read from {len(ptxns)} well-formed rows', case)
         return
